@@ -985,6 +985,7 @@ impl std::cmp::PartialEq for PathRule {
         match (self, other) {
             (PathRule::Prefix(s1), PathRule::Prefix(s2)) => s1 == s2,
             (PathRule::Regex(r1), PathRule::Regex(r2)) => r1.as_str() == r2.as_str(),
+            (PathRule::Equals(s1), PathRule::Equals(s2)) => s1 == s2,
             _ => false,
         }
     }
